@@ -30,6 +30,11 @@ CHECKS = {
    design_ref='DESIGN.md 6/C07',
    note='The representation-level simulation (nested dicts vs SQL tables) is NOT modelled: proof strength is limited to the shared model + flags; the backend equivalence itself rests on the differential check (3 backends pairwise, every step). Trusted: SQLite row order, SQLAlchemy. Both divergences found were repaired by fix: commits.',
    technique='Lean 4 model shared by both backends + three-backend differential correspondence check'),
+ 'C08': dict(
+   text='Lean 4 proofs over M4 (Model/Deploy.lean: how each servicer outcome of M1 reaches a caller through the in-process path and through gRPC, and the client layer of clients.py on top): for every servicer outcome and hence for every history the error class seen by a caller is the same in all three deployments; an algorithm failure is reported identically whether Pythia runs in-process (raw exception) or behind gRPC (RpcError); the promised exceptions (ResourceNotFoundError for a missing trial/study, [] for a finished study) are produced in every deployment; kernel-checked counterexamples for the pinned commit (UNKNOWN instead of NOT_FOUND over gRPC; handle_exception not stopping the servicer behind gRPC, so a refused CompleteTrial overwrites a completed trial). Tie/property on every run: stateful RPC histories and client-level programs replayed against the in-process servicer, a real gRPC server and a real gRPC server with a separate gRPC Pythia server, compared per step on responses (errors by class) and full datastore snapshots.',
+   design_ref='DESIGN.md 6/C08',
+   note='Trusted: the two gRPC transport rules (an uncaught servicer exception arrives as UNKNOWN; context.abort(code) arrives as that code), loopback only; M1/M4 hand-written. Error classes compared: FAILED_PRECONDITION, NOT_FOUND, ALREADY_EXISTS, other. Two genuine defects repaired by fix: commits (handle_exception aborts; lookup errors mapped + get_trial translation).',
+   technique='Lean 4 theorem proving over a transport/client model + three-deployment differential correspondence check'),
 }
 
 NOT_YET = 'not yet built in this session (machinery in progress; see DESIGN.md section 7 build order)'
